@@ -198,12 +198,15 @@ def run(repo: Repo, chk: Check):
     # start of the obligated region: the statement after the empty-line early return
     ret_nodes = [n for n in cfg.nodes if n.kind == "return" and n.id in live]
     early = None
+    early_pol = False
     for n in cfg.nodes:
         if n.kind == "test" and n.id in live and norm(n.ast) in ("not line", "line == ''", "len(line) == 0", "not line.strip()"):
-            early = n
+            early, early_pol = n, False
+        elif n.kind == "test" and n.id in live and early is None and norm(n.ast) in ("line", "line != ''", "len(line) > 0", "len(line) != 0", "line.strip()"):
+            early, early_pol = n, True      # the nested form: everything else happens under 'if line:'
     if early is None:
         raise AnalysisError("process_input: empty-line test not found")
-    start = [b for b, lab in cfg.succ[early.id] if isinstance(lab, tuple) and lab[1] is False]
+    start = [b for b, lab in cfg.succ[early.id] if isinstance(lab, tuple) and lab[1] is early_pol]
     start = start[0] if start else None
     # variable answered
     resp_name = None
@@ -393,15 +396,30 @@ def run(repo: Repo, chk: Check):
     bad = []
     for mn in ("compile_pass", "generate_code", "compiler"):
         mm = repo.mod(mn)
-        for st in ast.walk(mm.tree):
-            if isinstance(st, ast.Assign) and any(isinstance(t, ast.Attribute) and t.attr == "result" and norm(t.value) in ("self.data", "self") and "_ndata" not in norm(t)
-                                                  for t in st.targets):
-                tgt = [norm(t) for t in st.targets]
-                if any(t in ("self.data.result", "self.result") for t in tgt) and mn != "compile_pass" or "self.result = {" in norm(st):
-                    is_dict = isinstance(st.value, (ast.Dict, ast.DictComp)) or isinstance(st.value, ast.Call) and norm(st.value.func) == "dict"
-                    if not is_dict:
-                        if norm(st.value) != "value":
-                            bad.append(f"{mn}: {norm(st)[:60]}")
+        # the functions in canonical form (helpers that build the result are expanded at their call sites)
+        from .shared import fn_ctx, live_ids
+        for f_ in mm.funcs.values():
+            if not isinstance(f_, (ast.FunctionDef, ast.AsyncFunctionDef)):
+                continue
+            fc = frd_ = None
+            for st in ast.walk(f_):
+                if isinstance(st, ast.Assign) and any(isinstance(t, ast.Attribute) and t.attr == "result" and norm(t.value) in ("self.data", "self") and "_ndata" not in norm(t)
+                                                      for t in st.targets):
+                    tgt = [norm(t) for t in st.targets]
+                    if any(t in ("self.data.result", "self.result") for t in tgt) and mn != "compile_pass" or "self.result = {" in norm(st):
+                        vals = [st.value]
+                        if isinstance(st.value, ast.Name):
+                            # a local that was given the dictionary
+                            if fc is None:
+                                fc, frd_ = fn_ctx(f_)
+                            ids_ = live_ids(fc, st)
+                            ds_ = frd_.at(ids_[0], st.value.id) if ids_ else []
+                            if ds_ and all(d_.kind == "assign" and not d_.index and d_.value is not None for d_ in ds_):
+                                vals = [d_.value for d_ in ds_]
+                        for v_ in vals:
+                            is_dict = isinstance(v_, (ast.Dict, ast.DictComp)) or isinstance(v_, ast.Call) and norm(v_.func) == "dict"
+                            if not is_dict and norm(v_) != "value":
+                                bad.append(f"{mn}: {norm(st)[:60]}")
     chk.judge("R14.b", "package:data.result is assigned dictionaries only", not bad, f"{bad}", None, "compile_pass/generate_code")
 
     # ---------------------------------------------------------------- R14.c
@@ -461,14 +479,26 @@ def run(repo: Repo, chk: Check):
               f"{len(calls)} call(s) of process_input in the loop", None, f"{path}:{loop.lineno}")
     # statements of process_input outside the try must be total
     outside = []
-    for st in fn.body:
-        if isinstance(st, ast.Try):
-            continue
-        for c in ast.walk(st):
+
+    def scan(node):
+        for c in ast.walk(node):
             if isinstance(c, ast.Call) and norm(c.func) not in TOTAL_CALLS:
                 outside.append(norm(c)[:50])
             if isinstance(c, (ast.Subscript, ast.BinOp, ast.Raise)):
                 outside.append(norm(c)[:50])
+
+    def visit(stmts):
+        for st in stmts:
+            if isinstance(st, ast.Try):
+                continue
+            if isinstance(st, ast.If):
+                # 'if line: try: ...' is the guard clause 'if not line: return' written the other way round
+                scan(st.test)
+                visit(st.body)
+                visit(st.orelse)
+                continue
+            scan(st)
+    visit(fn.body)
     chk.judge("R14.c", "mod_daemon:process_input:nothing outside the try can raise", not outside,
               f"statements outside try/finally that may raise into the request loop: {outside}", None, where)
     # the finally body: only the reply
